@@ -37,6 +37,7 @@ struct SrcPlan {
     int64_t fail_at_seek = -1;    // k-th source seek callback fails
     int64_t early_eof_at = -1;    // source pretends to end at this offset (reads only)
     int64_t fopen_fail_at = -1;   // k-th fopen of a simdisk path returns NULL/ENOMEM
+    int mmap_path_fault = 0;      // mmap transport: 1 open() fails (EMFILE), 2 fstat() fails (EIO), 3 mmap() fails (ENOMEM)
     int vbuf_mode = 0; size_t vbuf_size = 0;
 };
 struct IoStats {
